@@ -62,6 +62,7 @@ type vestEnv struct {
 	baseNoKey   chain.Key
 	baseWithKey chain.Key
 	delayed     chain.Key
+	baseEmpty   chain.Key // an account that was used before and holds nothing any more
 	// per-scenario coverage flags
 	cov map[string]int64
 	// profile steers the operation mix ("" = balanced, "split" = split/move heavy)
@@ -144,6 +145,8 @@ func newVestEnvOpts(r *rand.Rand, opt vestOpts) (*vestEnv, error) {
 	accs = append(accs, chain.GenAccount{Account: authtypes.NewBaseAccount(e.baseNoKey.Addr, nil, 0, 0), Coins: sdk.NewCoins(bigCoins(vDenom, 9))})
 	e.baseWithKey = e.key("base-withkey")
 	accs = append(accs, chain.GenAccount{Account: authtypes.NewBaseAccount(e.baseWithKey.Addr, e.baseWithKey.Priv.PubKey(), 0, 5), Coins: sdk.NewCoins(bigCoins(vDenom, 9))})
+	e.baseEmpty = e.key("base-empty")
+	accs = append(accs, chain.GenAccount{Account: authtypes.NewBaseAccount(e.baseEmpty.Addr, e.baseEmpty.Priv.PubKey(), 0, 3), Coins: sdk.NewCoins()})
 	e.delayed = e.key("delayed")
 	dc := sdk.NewCoins(sdk.NewCoin(vDenom, sdk.NewInt(5_000_000)))
 	accs = append(accs, chain.GenAccount{Account: vestingtypes.NewDelayedVestingAccount(authtypes.NewBaseAccount(e.delayed.Addr, nil, 0, 0), dc, gen.Epoch.Add(30*24*time.Hour).Unix()), Coins: dc.Add(sdk.NewCoin(vDenom, sdk.NewInt(1000)))})
@@ -294,6 +297,8 @@ func (e *vestEnv) randRecipient(r *rand.Rand) string {
 		return chain.ModuleAddr("governance_booster_collector") // module address that may not be materialised
 	case 6:
 		return e.owners[r.Intn(len(e.owners))].Bech()
+	case 7:
+		return e.baseEmpty.Bech()
 	}
 	return e.fresh().Bech()
 }
